@@ -318,6 +318,9 @@ func discharge(obligs []*oblig, opt dischargeOpts) {
 			o.result, o.solver = "unsat", "trivial"
 			continue
 		}
+		if o.prebaked {
+			continue
+		}
 		wg.Add(1)
 		sem <- struct{}{}
 		go func(idx int, o *oblig) {
